@@ -130,7 +130,8 @@ def json (fs : List String) : String :=
     | some bs =>
       let (sd, sv) := sliceLoop bs
       let (rd, rv) := readerLoop bs
-      s!"slice:{verdictName sv}:{sd.length} reader:{verdictName rv}:{rd.length} out:{toHex (writeDocs markerFloat rd)}"
+      let k1 := if hasUnseparatedScalar bs then 1 else 0
+      s!"slice:{verdictName sv}:{sd.length} reader:{verdictName rv}:{rd.length} k1:{k1} out:{toHex (writeDocs markerFloat rd)}"
     | none => "bad-case"
   | ["jsonstr", hex] =>
     match parseHex hex with
